@@ -2,7 +2,7 @@
     Statements about the assembler model over operation histories (burst arrivals and idle
     polls with symbolic times); only [exact] of lemmas proved in Proofs/AssemblerP.v. *)
 From Sameold Require Import Base.Bytes Model.Header Model.Combiner Model.Assembler
-  Proofs.CombinerP Proofs.AssemblerP.
+  Proofs.CombinerP Proofs.AssemblerP Proofs.TransmissionP.
 
 (** Two intact copies of a canonical header and ONE ARBITRARY burst (any bytes, any length)
     in ANY of the three positions; all times symbolic, inside the history window; polling
@@ -89,6 +89,30 @@ Theorem C02_trailer_exactly_one_eom : forall prev0 n1 n2 n3 t1 t2 t3 polls1 poll
   = [(t1, Ok EOM)].
 Proof. exact trailer_one_eom. Qed.
 Print Assumptions C02_trailer_exactly_one_eom.
+
+
+(** "... in particular for messages with no voice segment, whose trailer follows the header by one
+    second": all six bursts received, the header's hold running out while the first trailer burst is
+    being received.  Exactly one StartOfMessage (returned by the call that delivers the first trailer
+    burst) and one EndOfMessage (returned by the call that delivers the second). With only TWO header
+    bursts the same history loses the EndOfMessage: known finding F2 below. *)
+Theorem C02_no_voice_gap_transmission :
+  forall H h0 prev0 n1 n2 n3 t1 t2 t3 u1 u2 u3 polls1 polls2 pa polls4 polls5 polls6,
+  header_new H = Ok h0 -> h_text h0 = H -> forallb is_allowed_byte H = true ->
+  (length H <= MAX_MESSAGE_LENGTH)%nat -> nd h0 (prune_previous prev0 t1) ->
+  starts_NN n1 -> starts_NN n2 -> starts_NN n3 -> all_bytes n1 = true -> (length n1 < length H)%nat ->
+  t1 <= t2 -> t2 <= t3 -> t3 + MAX_INTERBURST_SYMBOLS <= u1 -> u1 <= u2 -> u2 <= u3 ->
+  u3 < t2 + MAX_HISTORY_DURATION -> t3 < t1 + MAX_HISTORY_DURATION ->
+  Forall (fun n => n < t1 + MAX_HISTORY_DURATION) polls1 ->
+  Forall (fun n => n < t2 + MAX_INTERBURST_SYMBOLS /\ n < t1 + MAX_HISTORY_DURATION) polls2 ->
+  Forall (fun n => n < t3 + MAX_INTERBURST_SYMBOLS /\ n < t2 + MAX_HISTORY_DURATION) pa ->
+  Forall (fun n => n < t2 + MAX_HISTORY_DURATION) polls4 ->
+  Forall (fun n => n < t2 + MAX_HISTORY_DURATION) polls5 ->
+  msgs (fst (asm_run (mkAsm [] None prev0)
+              (no_gap_ops H H H n1 n2 n3 t1 t2 t3 u1 u2 u3 polls1 polls2 pa polls4 polls5 polls6)))
+  = [(u1, Ok (SOM (mkHeader H (h_offset_time h0) (parity_spec H H) (voting_spec H H)))); (u2, Ok EOM)].
+Proof. exact clean_transmission_no_voice_gap. Qed.
+Print Assumptions C02_no_voice_gap_transmission.
 
 (** non-vacuity: a concrete canonical header meets the hypotheses; the ordinary six-burst
     transmission evaluates to one StartOfMessage and one EndOfMessage *)
